@@ -11,28 +11,52 @@ from checks import _ll
 PROPERTY = "C10"
 LEAN_MODULES = ["TapkeeVerif.Props.C10"]
 LEAN_EXES = ["model_c10"]
-REQUIRED_THEOREMS = [
+REQUIRED_THEOREMS = [     # every theorem of the Props module (all MANIFEST-named ones included): deleting one fails the audit
+    "TapkeeVerif.C10.sample_loop_get",
+    "TapkeeVerif.C10.weight_loop_get",
+    "TapkeeVerif.C10.npe_returns",
     "TapkeeVerif.C10.lhs_upper_eq",
     "TapkeeVerif.C10.lhs_lower_eq",
-    "TapkeeVerif.C10.npe_returns",
+    "TapkeeVerif.C10.rhs_upper_eq",
+    "TapkeeVerif.C10.rhs_lower_eq",
+    "TapkeeVerif.C10.fullForm_centering",
+    "TapkeeVerif.C10.centredForm_eq_HWH",
     "TapkeeVerif.C10.lltsa_returns",
+    "TapkeeVerif.C10.lltsa_lhs_is_mirror",
+    "TapkeeVerif.C10.lltsa_lhs_expanded",
+    "TapkeeVerif.C10.lltsa_lhs_expanded_symm",
+    "TapkeeVerif.C10.fullForm_centredForm",
+    "TapkeeVerif.C10.centredForm_of_const_eigvec",
+    "TapkeeVerif.C10.lltsa_translation_invariant",
+    "TapkeeVerif.C10.lltsa_problem_translation_invariant",
     "TapkeeVerif.C10.lpp_returns",
-    "TapkeeVerif.C10.solver_sees_XMXt",
+    "TapkeeVerif.C10.solver_sees_XMXt_npe",
     "TapkeeVerif.C10.solver_sees_XMXt_lltsa",
     "TapkeeVerif.C10.solver_sees_XMXt_lpp",
-    "TapkeeVerif.C10.lin_solution",
-    "TapkeeVerif.C10.rotation_equivariance",
+    "TapkeeVerif.C10.solver_sees_XMXt",
+    "TapkeeVerif.C10.rotateRows_row",
     "TapkeeVerif.C10.fullForm_rotate",
+    "TapkeeVerif.C10.fullDiagForm_rotate",
+    "TapkeeVerif.C10.linear_kernel_rotation_invariant",
+    "TapkeeVerif.C10.meanVec_rotate",
     "TapkeeVerif.C10.project_rotate",
-    "TapkeeVerif.C10.lltsa_lhs_expanded",
-    "TapkeeVerif.C10.fullForm_centredForm",
-    "TapkeeVerif.C10.lltsa_problem_translation_invariant",
-    "TapkeeVerif.C10.preshift_lltsa_not_translation_invariant",   # regression witness of F-LLTSA-SHIFT
-    "TapkeeVerif.C10.prefix_solver_sees_XMXt_refuted",      # regression witness of F-LIN-TRI (pre-fix routines)
-    "TapkeeVerif.C10.prefix_lltsa_lhs_upper_eq",            # regression witness of F-LLTSA-CENTRE
+    "TapkeeVerif.C10.npe_view_rotation_equivariant",
+    "TapkeeVerif.C10.diag_solver_not_rotation_equivariant",
     "TapkeeVerif.C10.centredForm_align",
     "TapkeeVerif.C10.lltsa_pencil_align",
     "TapkeeVerif.C10.lltsa_solves_alignment_problem",
+    "TapkeeVerif.C10.prefix_solver_sees_XMXt_refuted",
+    "TapkeeVerif.C10.prefix_lhs_strict_lower_zero",
+    "TapkeeVerif.C10.prefix_solver_sees_diag",
+    "TapkeeVerif.C10.prefix_solver_sees_diag_rhs",
+    "TapkeeVerif.C10.prefix_lpp_solver_sees_diag",
+    "TapkeeVerif.C10.prefix_lltsa_lhs_upper_eq",
+    "TapkeeVerif.C10.prefix_lltsa_solver_sees",
+    "TapkeeVerif.C10.prefix_npe_solver_view_not_rotation_equivariant",
+    "TapkeeVerif.C10.preshift_lltsa_returns",
+    "TapkeeVerif.C10.preshift_lltsa_not_translation_invariant",
+    "TapkeeVerif.C10.lin_solution",
+    "TapkeeVerif.C10.rotation_equivariance",
     "TapkeeVerif.C10.belowCount_sound",
     "TapkeeVerif.C10.belowCount_bounds_eigenvalues",
     "TapkeeVerif.C10.bottom_certified",
@@ -91,7 +115,7 @@ def make_spec(r, op, method, quick, force=None):
                      "wseed": r.below(1 << 60), "sym": r.chance(2, 3), "density": r.choice([20, 40, 100]),
                      "dseed": r.below(1 << 60) if r.chance(1, 2) else None})
         return spec
-    D = force.get("D") or r.choice([2, 3, 3, 4, 5, 6, 8, 12] + ([30] if r.chance(1, 3) else [5]))
+    D = force.get("D") or r.choice([2, 3, 3, 4, 5, 6, 8, 12, r.range(13, 29)] + ([30] if r.chance(1, 3) else [r.range(7, 20)]))
     d = force.get("d") or r.range(1, min(4, D - 1))
     Nmax = 40 if quick else 64
     N = force.get("N") or r.range(max(D + 3, 8), max(D + 3, r.choice([16, 24, Nmax])))
